@@ -157,3 +157,27 @@ package builder
 //@   ensures cbCalls == old(cbCalls) ==> forall i int :: 0 <= i && i < old(len(_this.chunkedData)) ==> _this.chunkedData[i] == old(_this.chunkedData[i])
 //@   ensures cbCalls == old(cbCalls) ==> forall i int :: 0 <= i && i < len(data) ==> _this.chunkedData[old(len(_this.chunkedData)) + i] == old(data[i])
 //@   may_panic
+
+// Termination of the error path (C07): ending the open builders artificially returns whatever the
+// builders on the stack do (any of them may leave the stack as it is, shrink it or grow it): every
+// round ends with a stack strictly shorter than it began with.
+//@ iface builder.Builder.BuildArtificiallyEndContainer
+//@   requires ctx != nil
+//@   modifies ctx.builderStack, ctx.CurrentBuilder, memall(builder.Builder), alloc
+//@   ensures len(ctx.builderStack) >= 0
+//@   may_panic
+//@ func (*Context).UnstackBuilder
+//@   requires len(_this.builderStack) >= 2
+//@   modifies _this.builderStack, _this.CurrentBuilder
+//@   ensures len(_this.builderStack) == old(len(_this.builderStack)) - 1
+//@ func (*Context).ArtificiallyTerminate
+//@   modifies _this.builderStack, _this.CurrentBuilder, memall(builder.Builder), alloc
+//@   ensures len(_this.builderStack) <= 1
+//@   may_panic
+//@   runtime_panics
+//@   loop 0 modifies _this.builderStack, _this.CurrentBuilder, memall(builder.Builder), alloc
+//@   loop 0 invariant true
+//@   loop 0 decreases len(_this.builderStack)
+//@   loop 1 modifies _this.builderStack, _this.CurrentBuilder
+//@   loop 1 invariant depth >= 2
+//@   loop 1 decreases len(_this.builderStack)
